@@ -212,4 +212,39 @@ theorem holder_releases (s : LSt) (q : Nat) (hinv : LInv s) (hq : s.holder = som
     · rw [hd]; exact hq
     · rw [hd]; simp [lstep, hq, h1]
 
+/-! ## The member with a lock hand-over (NOT the code as written)
+
+    If `Publish` released `mu` only after `muHandle.Lock()` ("hand-over"), a publisher queued on `muHandle` would hold
+    `mu`. `Spine/Props/C15Gen.lean` checks on every run, on a fact regenerated from spine/events.go, that the tree
+    under test is not this member. Here: what goes wrong in it. -/
+
+structure HSt where
+  l : LSt := {}
+  muHolder : Option Nat := none     -- the publication that took its snapshot and keeps `mu` until it gets `muHandle`
+
+def HEnabled (s : HSt) : LEv → Prop
+  | .subscribe _ => s.muHolder = none
+  | .unsubscribe _ => s.muHolder = none
+  | .snapshot _ => s.muHolder = none
+  | .appRun _ _ => True
+  | .acquire _ => s.l.holder = none
+  | .deliver p => s.l.holder = some p
+  | .release p => s.l.holder = some p
+
+instance (s : HSt) (e : LEv) : Decidable (HEnabled s e) := by
+  cases e <;> simp only [HEnabled] <;> exact inferInstance
+
+def hstep (s : HSt) : LEv → HSt
+  | .subscribe h => if s.muHolder = none then { s with l := lstep s.l (.subscribe h) } else s
+  | .unsubscribe h => if s.muHolder = none then { s with l := lstep s.l (.unsubscribe h) } else s
+  | .snapshot p =>
+    if s.muHolder = none ∧ phaseOf s.l p = none then { l := lstep s.l (.snapshot p), muHolder := some p } else s
+  | .acquire p =>
+    if s.muHolder = some p ∧ s.l.holder = none then { l := lstep s.l (.acquire p), muHolder := none } else s
+  | .deliver p => { s with l := lstep s.l (.deliver p) }
+  | .release p => { s with l := lstep s.l (.release p) }
+  | .appRun p h => { s with l := lstep s.l (.appRun p h) }
+
+def hrun (evs : List LEv) : HSt := evs.foldl hstep {}
+
 end Spine.Bus
